@@ -49,18 +49,21 @@ Proof.
   rewrite E in *. cbn [fst snd] in *. apply K. destruct (spec_decide r); congruence.
 Qed.
 
+Lemma RDone_inj : forall a b, RDone a = RDone b -> a = b.
+Proof. intros a b H. injection H. auto. Qed.
+
 Lemma gen_explicit_wins : forall r pm k v,
   decide gen_tables r = RDone pm -> explicit r k = Some v -> pm_lookup k pm = Some v.
 Proof.
   intros r pm k v H X. rewrite gen_decide in H. destruct (spec_decide r); [discriminate|].
-  injection H as <-. rewrite (merged_agrees r k). unfold effective. now rewrite X.
+  apply RDone_inj in H. subst pm. rewrite (merged_agrees r k). unfold effective. rewrite X. reflexivity.
 Qed.
 
 Lemma gen_defaults_fill : forall r pm k,
   decide gen_tables r = RDone pm -> explicit r k = None -> pm_lookup k pm = pm_lookup k doc_defaults.
 Proof.
   intros r pm k H X. rewrite gen_decide in H. destruct (spec_decide r); [discriminate|].
-  injection H as <-. rewrite (merged_agrees r k). unfold effective. now rewrite X.
+  apply RDone_inj in H. subst pm. rewrite (merged_agrees r k). unfold effective. rewrite X. reflexivity.
 Qed.
 
 Lemma find_none_iff : forall (A : Type) (p : A -> bool) l,
@@ -207,7 +210,7 @@ Proof.
   cbn [forallb andb]. rewrite negb_false_iff.
   change (c_pred cell_landmark_ratio) with (in_closed_range (BDiv (BReal 3) BN) (BReal 1)).
   rewrite in_closed_range_spec.
-  destruct (bound_landmark_ratio (rq_n r)) as [B1 B2].
+  destruct (bound_landmark_ratio (spec_env r)) as [B1 B2].
   change (c_ty cell_landmark_ratio) with TScalar. now rewrite B1, B2.
 Qed.
 
@@ -219,7 +222,7 @@ Proof.
   cbn [forallb andb]. rewrite negb_false_iff.
   change (c_pred cell_perplexity) with (in_closed_range (BReal 0) (BDiv (BSub BN (BInt 1)) (BReal 3))).
   rewrite in_closed_range_spec.
-  destruct (bound_perplexity (rq_n r)) as [B1 B2].
+  destruct (bound_perplexity (spec_env r)) as [B1 B2].
   change (c_ty cell_perplexity) with TScalar. now rewrite B1, B2.
 Qed.
 
@@ -293,7 +296,7 @@ Proof. intros r. apply old_same_when_well_typed. exact gen_wf. Qed.
 
 (* witnesses: the old stage order breaks the wrong-type clause in both ways *)
 Definition all_callbacks (kws : list (kwid * value)) (n : Z) : request :=
-  {| rq_kws := kws; rq_n := n; rq_kernel := true; rq_distance := true; rq_features := true |}.
+  {| rq_kws := kws; rq_n := n; rq_dim := 24; rq_kernel := true; rq_distance := true; rq_features := true |}.
 
 (* Kernel PCA with an eigen method of a foreign type: the kernel matrix is evaluated first *)
 Definition witness_late : request :=
